@@ -639,66 +639,160 @@ func ruleOnPathOnly(p *Program, r *Reporter) {
 				// function that inserts — or, when the insertion is made by a helper,
 				// in every function that calls the helper (the conversion whose
 				// container was inserted)
-				undone := func(g *ssa.Function, keyVal ssa.Value) bool {
-					if defersUndoHandedBack(g, field) {
+				deletesFromSet := func(cc *ssa.CallCommon) bool {
+					if bi, ok := cc.Value.(*ssa.Builtin); ok && bi.Name() == "delete" && len(cc.Args) == 2 {
+						if l2, ok := cc.Args[0].(*ssa.UnOp); ok {
+							if f2, ok := l2.X.(*ssa.FieldAddr); ok && fieldKey(f2) == field {
+								return true
+							}
+						}
+					}
+					return false
+				}
+				// undoInstr: the instruction registers (or performs) the removal
+				undoInstr := func(gi ssa.Instruction) bool {
+					if c2, ok := gi.(*ssa.Call); ok && deletesFromSet(&c2.Call) {
 						return true
 					}
-					for _, gb := range g.Blocks {
-						for _, gi := range gb.Instrs {
-							df, ok := gi.(*ssa.Defer)
-							if !ok {
-								continue
-							}
-							if bi, ok := df.Call.Value.(*ssa.Builtin); ok && bi.Name() == "delete" && len(df.Call.Args) == 2 {
-								if l2, ok := df.Call.Args[0].(*ssa.UnOp); ok {
-									if f2, ok := l2.X.(*ssa.FieldAddr); ok && fieldKey(f2) == field {
-										return true
-									}
-								}
-								continue
-							}
-							// defer func() { delete(vm.set, k) }() or defer vm.leave(k)
-							var body *ssa.Function
-							if mc, ok := df.Call.Value.(*ssa.MakeClosure); ok {
-								body, _ = mc.Fn.(*ssa.Function)
-							} else if sc := df.Call.StaticCallee(); sc != nil {
-								body = sc
-							}
-							if body != nil {
-								for _, bb := range body.Blocks {
-									for _, bi := range bb.Instrs {
-										if c2, ok := bi.(*ssa.Call); ok {
-											if bl, ok := c2.Call.Value.(*ssa.Builtin); ok && bl.Name() == "delete" && len(c2.Call.Args) == 2 {
-												if l2, ok := c2.Call.Args[0].(*ssa.UnOp); ok {
-													if f2, ok := l2.X.(*ssa.FieldAddr); ok && fieldKey(f2) == field {
-														return true
-													}
-												}
-											}
-										}
-									}
+					df, ok := gi.(*ssa.Defer)
+					if !ok {
+						return false
+					}
+					if deletesFromSet(&df.Call) {
+						return true
+					}
+					// defer func() { delete(vm.set, k) }() or defer vm.leave(k)
+					var body *ssa.Function
+					if mc, ok := df.Call.Value.(*ssa.MakeClosure); ok {
+						body, _ = mc.Fn.(*ssa.Function)
+					} else if sc := df.Call.StaticCallee(); sc != nil {
+						body = sc
+					}
+					if body != nil {
+						for _, bb := range body.Blocks {
+							for _, bi := range bb.Instrs {
+								if c2, ok := bi.(*ssa.Call); ok && deletesFromSet(&c2.Call) {
+									return true
 								}
 							}
 						}
 					}
 					return false
 				}
+				// undone: on every path from `from` to a return of g the removal
+				// is registered — paths on which `okVal` (what a helper reported)
+				// is false left aside when exemptFalse
+				undone := func(g *ssa.Function, from ssa.Instruction, okVal ssa.Value, exemptFalse bool) bool {
+					if defersUndoHandedBack(g, field) {
+						return true
+					}
+					if from == nil {
+						return false
+					}
+					leak := false
+					seenB := map[*ssa.BasicBlock]bool{}
+					var walk func(b *ssa.BasicBlock, start int)
+					walk = func(b *ssa.BasicBlock, start int) {
+						if leak {
+							return
+						}
+						for i := start; i < len(b.Instrs); i++ {
+							gi := b.Instrs[i]
+							if undoInstr(gi) {
+								return
+							}
+							switch t := gi.(type) {
+							case *ssa.Return:
+								leak = true
+								return
+							case *ssa.Panic:
+								return
+							case *ssa.If:
+								if exemptFalse && okVal != nil && len(b.Succs) == 2 {
+									cond, neg := t.Cond, false
+									if u, ok := cond.(*ssa.UnOp); ok && u.Op == token.NOT {
+										cond, neg = u.X, true
+									}
+									if cond == okVal {
+										s := b.Succs[0]
+										if neg {
+											s = b.Succs[1]
+										}
+										if !seenB[s] {
+											seenB[s] = true
+											walk(s, 0)
+										}
+										return
+									}
+								}
+							}
+						}
+						for _, s := range b.Succs {
+							if !seenB[s] {
+								seenB[s] = true
+								walk(s, 0)
+							}
+						}
+					}
+					walk(from.Block(), instrIndex(from)+1)
+					return !leak
+				}
 				if in[f] {
-					if undone(f, mu.Key) {
-						r.OkNT(key, p.Pos(mu.Pos()), "deferred delete in the same function")
+					if undone(f, mu, nil, false) {
+						r.OkNT(key, p.Pos(mu.Pos()), "a deferred delete is registered on every path from the insertion to a return")
 					} else {
 						r.Fail(key, p.Pos(mu.Pos()), "a container is put into the set that cuts off cycles and nothing takes it out again when its conversion ends: the set then holds every container met so far, not those on the current path, and a second empty slice, a second nil map or a map stored under two fields is taken for a cycle and arrives as null")
 					}
 					continue
 				}
-				// a helper: every caller inside the component must undo
+				// a helper: every caller inside the component must undo — on every
+				// path on which the helper has inserted: when the helper says "no"
+				// only where it has not inserted (every return that the insertion
+				// can reach reports true), the caller's "no" branch has nothing to undo
+				insertedMeansTrue := false
+				boolIdx := -1
+				if rs := sigResults(f); len(rs) > 0 && isBoolType(rs[len(rs)-1]) {
+					boolIdx = len(rs) - 1
+					insertedMeansTrue = true
+					seenR := map[*ssa.BasicBlock]bool{}
+					var fw func(b *ssa.BasicBlock, start int)
+					fw = func(b *ssa.BasicBlock, start int) {
+						for i := start; i < len(b.Instrs); i++ {
+							if ret, ok := b.Instrs[i].(*ssa.Return); ok {
+								k, isK := returnOperand(ret, boolIdx).(*ssa.Const)
+								if !isK || k.Value == nil || k.Value.Kind() != constant.Bool || !constant.BoolVal(k.Value) {
+									insertedMeansTrue = false
+								}
+							}
+						}
+						for _, sc := range b.Succs {
+							if !seenR[sc] {
+								seenR[sc] = true
+								fw(sc, 0)
+							}
+						}
+					}
+					fw(mu.Block(), instrIndex(mu)+1)
+				}
 				sites, okAll := 0, true
 				for _, g := range comp {
 					for _, gb := range g.Blocks {
 						for _, gi := range gb.Instrs {
 							if c2, ok := staticCalleeIs(gi, f); ok && c2 != nil {
 								sites++
-								if !undone(g, nil) {
+								var okVal ssa.Value
+								if v, isV := gi.(ssa.Value); isV && boolIdx >= 0 {
+									if len(sigResults(f)) == 1 {
+										okVal = v
+									} else if v.Referrers() != nil {
+										for _, ref := range *v.Referrers() {
+											if ex, ok := ref.(*ssa.Extract); ok && ex.Index == boolIdx {
+												okVal = ex
+											}
+										}
+									}
+								}
+								if !undone(g, gi, okVal, insertedMeansTrue) {
 									okAll = false
 								}
 							}
@@ -706,9 +800,9 @@ func ruleOnPathOnly(p *Program, r *Reporter) {
 					}
 				}
 				if sites > 0 && okAll {
-					r.OkNT(key, p.Pos(mu.Pos()), fmt.Sprintf("the helper's %d caller(s) register a deferred delete", sites))
+					r.OkNT(key, p.Pos(mu.Pos()), fmt.Sprintf("the helper's %d caller(s) register a deferred delete on every path on which the helper has inserted", sites))
 				} else {
-					r.Fail(key, p.Pos(mu.Pos()), "a container is put into the set that cuts off cycles (by a helper) and the conversion that called the helper does not take it out again when it ends: the set then holds every container met so far, not those on the current path, and a second empty slice, a second nil map or a map stored under two fields is taken for a cycle and arrives as null")
+					r.Fail(key, p.Pos(mu.Pos()), "a container is put into the set that cuts off cycles (by a helper) and on some path the conversion that called the helper does not take it out again when it ends (a refusal reported after the insertion, say, on which the caller returns at once): the set then holds every container met so far, not those on the current path, and a second empty slice, a second nil map or a map stored under two fields is taken for a cycle and arrives as null")
 				}
 			}
 		}
